@@ -133,3 +133,7 @@ def run(tier, V):
     assumptions = ['equality of two executions of the same binary is the oracle; both runs share all defects that do not involve repetition',
                    'the register used for @ is loaded with :rs (its text ends with a newline, which run B types as well)']
     return cov, assumptions
+
+
+def REPLAY(w):
+    return run_case((build('asan'), w['index']))[:2]
